@@ -500,3 +500,71 @@ func c16linecol(c *core.Ctx) {
 		c.Note(R, "SetFile:none", "", "no SetFile call in the module", "")
 	}
 }
+
+// c16newline: the newline symbol of a text is decided by its first line break, wherever that is.
+func c16newline(c *core.Ctx) {
+	const R = "C16.newline"
+	c.Rule(R, "Bytes.NewLineSymbol() reads the whole text (`range b.data`, not a prefix) until the first run of line-end bytes is over: a LF or CR byte becomes the symbol and sets the found flag, the first other byte after that stops the loop, other bytes before it change nothing (256 byte values x found/not found evaluated). Line, column and the quoted line of every diagnostic are computed with this symbol; decided from a prefix, a CR-only text with a long first line is treated as one line")
+	c.Floor(R, 3)
+	const fn = "(bytes.Bytes).NewLineSymbol"
+	d := c.P.FindDecl(fn)
+	if d == nil {
+		c.Unresolved(R, fn)
+		return
+	}
+	var rng *ast.RangeStmt
+	ast.Inspect(d.Decl.Body, func(n ast.Node) bool {
+		if r, ok := n.(*ast.RangeStmt); ok && rng == nil {
+			rng = r
+		}
+		return true
+	})
+	if rng == nil {
+		c.Bad(R, fn+":loop", c.P.Pos(d.Decl.Pos()), "NewLineSymbol loops over the data", "no range loop found")
+		return
+	}
+	recv := d.Decl.Recv.List[0].Names[0].Name
+	c.Check(core.ExprStr(ast.Unparen(rng.X)) == recv+".data", R, fn+":whole", c.P.Pos(rng.X.Pos()), "the loop ranges over the whole data ("+core.ExprStr(rng.X)+")",
+		"the loop ranges over "+core.ExprStr(rng.X)+", not over the whole text: a first line break outside that part is not seen")
+	cv := ""
+	if id, ok := rng.Value.(*ast.Ident); ok {
+		cv = id.Name
+	}
+	// the flag variable: a bool declared before the loop
+	flag := ""
+	ast.Inspect(d.Decl.Body, func(n ast.Node) bool {
+		if ds, ok := n.(*ast.DeclStmt); ok {
+			if gd, ok := ds.Decl.(*ast.GenDecl); ok {
+				for _, sp := range gd.Specs {
+					if vs, ok := sp.(*ast.ValueSpec); ok && len(vs.Names) == 1 && vs.Type != nil && core.ExprStr(vs.Type) == "bool" {
+						flag = vs.Names[0].Name
+					}
+				}
+			}
+		}
+		return true
+	})
+	bad := ""
+	if cv == "" || flag == "" {
+		bad = "the loop variable or the found flag was not identified"
+	}
+	for b := int64(0); b < 256 && bad == ""; b++ {
+		for f := int64(0); f <= 1 && bad == ""; f++ {
+			e := &miniEval{pk: d.Pkg, env: map[string]int64{cv: b, flag: f}}
+			st, _ := e.run(rng.Body.List)
+			isNL := b == '\n' || b == '\r'
+			switch {
+			case e.unknown != "":
+				bad = "undecided: " + e.unknown
+			case isNL && (st != miniFall && st != miniContinue || len(e.effects) != 1 || e.effects[0] != recv+".nl = "+cv || e.env[flag] != 1):
+				bad = core.F("byte %q (found=%d): status %d, effects %v, found=%d; expected the symbol to be recorded and the scan to go on", rune(b), f, st, e.effects, e.env[flag])
+			case !isNL && f == 1 && (st != miniBreak || len(e.effects) != 0):
+				bad = core.F("byte %q after a line end: status %d, effects %v; expected the loop to stop", rune(b), st, e.effects)
+			case !isNL && f == 0 && ((st != miniFall && st != miniContinue) || len(e.effects) != 0 || e.env[flag] != 0):
+				bad = core.F("byte %q before any line end: status %d, effects %v; expected no effect", rune(b), st, e.effects)
+			}
+		}
+	}
+	c.Check(bad == "", R, fn+":step", c.P.Pos(rng.Body.Pos()), "per byte: LF/CR -> symbol recorded; first other byte afterwards -> stop; otherwise nothing (512 cells)", bad)
+	c.OK(R, fn+":anchor", c.P.Pos(d.Decl.Pos()), "NewLineSymbol analysed")
+}
